@@ -68,7 +68,7 @@ func dev(args []string) {
 	sel := strings.Split(*fn, ",")
 	tot, okc := 0, 0
 	for _, c := range w.Contracts {
-		if c.Iface || c.Trusted || c.ModelOf != "" {
+		if c.Iface || c.Trusted || c.ModelOf != "" || c.OpaqueFn != "" {
 			continue
 		}
 		if *fn != "" {
@@ -117,6 +117,9 @@ func dev(args []string) {
 			}
 			fmt.Printf("   %s %-8s %-7s %5.2fs %s %v\n", mark, r.Status, r.Solver, r.Time, r.Obl.Name, r.Obl.Props)
 			if !r.OK() {
+				if r.Obl.Pos.IsValid() {
+					fmt.Printf("          at %s:%d\n", r.Obl.Pos.Filename, r.Obl.Pos.Line)
+				}
 				if len(r.Model) > 0 {
 					var ks []string
 					for k := range r.Model {
@@ -149,7 +152,7 @@ func hasProp(c *vc.Contract, p string) bool {
 			}
 		}
 	}
-	for _, q := range c.Safe {
+	for _, q := range append(append([]string{}, c.Safe...), c.AllocProps...) {
 		if q == p {
 			return true
 		}
